@@ -11,7 +11,33 @@ def rulesOf (perfile : Array (List String)) (finEmpty finAll : List String) : Ru
   collect := fun i => [i]
   finalize := fun es => if es.isEmpty then finEmpty else finAll
 
+def valOf (j : Json) : Option Val :=
+  match j with
+  | .str s => some (.str s)
+  | .null => some .none
+  | _ => match j.getInt? with
+    | .ok i => some (.int i)
+    | _ => none
+
+def valJson : Val → Json
+  | .str s => Json.str s
+  | .int i => toJson i
+  | .none => Json.null
+
+/-- transfer format: the record arrives as `[[key, value], ...]`; the answer is `from_dict` followed by `to_dict` -/
+def handleDict (j : Json) : Json :=
+  let d : Dict := (J.arrD j "dict").toList.filterMap fun kv =>
+    match kv.getArr?.toOption.map (·.toList) with
+    | some [k, v] => match k.getStr?.toOption, valOf v with
+      | some ks, some x => some (ks, x)
+      | _, _ => none
+    | _ => none
+  match fromDict d with
+  | some v => Json.mkObj [("ok", true), ("dict", Json.arr ((toDict v).map fun kv => Json.arr #[Json.str kv.1, valJson kv.2]).toArray)]
+  | none => Json.mkObj [("ok", false)]
+
 def handle (j : Json) : Json :=
+  if J.strD j "op" "" == "dict" then handleDict j else
   let perfile : Array (List String) := (J.arrD j "perfile").map fun a =>
     (a.getArr?.toOption.getD #[]).toList.filterMap (fun x => x.getStr?.toOption)
   let finEmpty := J.strsD j "finEmpty"
